@@ -62,6 +62,13 @@ func (x *Exec) Run() (err error) {
 		}
 		x.regs[p] = v
 		x.entry[p.Name()] = v
+		rp := ReplayParam{Name: p.Name(), GoType: types.TypeString(p.Type(), func(*types.Package) string { return "" }), Receiver: fn.Signature.Recv() != nil && len(x.vc.Params) == 0}
+		if _, isPtr := p.Type().Underlying().(*types.Pointer); isPtr {
+			rp.Unsupported = "pointer parameter"
+		} else if !replayLeaves(v, p.Type(), "", &rp.Leaves) {
+			rp.Unsupported = "parameter type not replayable"
+		}
+		x.vc.Params = append(x.vc.Params, rp)
 	}
 	x.entryMem = x.cur.clone()
 	// logical variables
@@ -1208,9 +1215,20 @@ func (x *Exec) doReturn(r *ssa.Return) {
 	}
 	pos := r.Pos()
 	site := fmt.Sprintf("ret@+%d.%d", x.relLine(pos), x.retCount)
+	var resLeaves []ReplayLeaf
+	resOK := true
+	for k := range results {
+		if !replayLeaves(results[k], sigRes.At(k).Type(), fmt.Sprintf("r%d", k), &resLeaves) {
+			resOK = false
+		}
+	}
 	for k, c := range x.contract.Ensures {
 		t := x.evalBool(c, env)
-		x.oblige(fmt.Sprintf("ensures/%d/%s", k+1, site), "ensures", x.curPC, t, c.Text, pos)
+		o := x.oblige(fmt.Sprintf("ensures/%d/%s", k+1, site), "ensures", x.curPC, t, c.Text, pos)
+		if resOK {
+			o.ResultLeaves = resLeaves
+			o.Params = x.vc.Params
+		}
 	}
 	if x.contract.HasPanics {
 		t := x.evalBool(x.contract.Panics, env)
@@ -1271,4 +1289,35 @@ func (x *Exec) typeAssert(i *ssa.TypeAssert) Val {
 	}
 	x.sideOblige("typeassert", tFalse)
 	return x.freshVal("ta", i.AssertedType)
+}
+
+// replayLeaves flattens a value into scalars with their Go basic types (for the replay harness).
+func replayLeaves(v Val, t types.Type, path string, out *[]ReplayLeaf) bool {
+	switch y := v.(type) {
+	case Leaf:
+		b, ok := t.Underlying().(*types.Basic)
+		if !ok {
+			return false
+		}
+		*out = append(*out, ReplayLeaf{Term: y.T.S, Path: path, Type: b.Name()})
+		return true
+	case Agg:
+		switch u := t.Underlying().(type) {
+		case *types.Array:
+			for i, e := range y.Elems {
+				if !replayLeaves(e, u.Elem(), fmt.Sprintf("%s[%d]", path, i), out) {
+					return false
+				}
+			}
+			return true
+		case *types.Struct:
+			for i, e := range y.Elems {
+				if !replayLeaves(e, u.Field(i).Type(), path+"."+u.Field(i).Name(), out) {
+					return false
+				}
+			}
+			return true
+		}
+	}
+	return false
 }
